@@ -2,6 +2,7 @@
 (two packages named *_test in ordinary files crash pkgload - DESIGN.md 4.7)."""
 import os
 import re
+import shutil
 import subprocess
 
 import vlib
@@ -12,10 +13,17 @@ GOOD = ["dupCase", "ifElseChain", "typeSwitchVar", "mapKey", "elseif", "unlambda
         "rangeValCopy", "hugeParam", "deferUnlambda", "dupBranchBody", "offBy1", "regexpMust", "wrapperFunc"]
 
 
-def make(ctx, name, npk, files=("positive_tests.go", "negative_tests.go"), with_tests=False, pick=None, adv=()):
+def make(ctx, name, npk, files=("positive_tests.go", "negative_tests.go"), with_tests=False, pick=None, adv=(), dsl=False):
     d = os.path.dirname(ctx.path(name, "go.mod"))
     with open(os.path.join(d, "go.mod"), "w") as f:
         f.write("module example.com/ws\n\ngo 1.21\n")
+        if dsl:
+            # user rule files can only be loaded from inside a module that requires the ruleguard DSL package
+            f.write("\nrequire github.com/quasilyte/go-ruleguard/dsl v0.3.22\n")
+    if dsl:
+        shutil.copy(os.path.join(vlib.REPO, "go.sum"), os.path.join(d, "go.sum"))
+        with open(os.path.join(d, "tools.go"), "w") as f:
+            f.write("//go:build tools\n\npackage tools\n\nimport _ \"github.com/quasilyte/go-ruleguard/dsl\"\n")
     names = list(pick) if pick else GOOD[:]
     if not pick:
         ctx.rng.shuffle(names)
